@@ -3,7 +3,7 @@ from vlib.common import CheckerError
 
 META = {
     "level": "other",
-    "structural": "Deductive (unbounded, from the AST of the real PanthLikelihood.get_pred / clear_data, model function opaque with H^2 > 0): for every redshift array "
+    "structural": "Structural obligations on the fitting-stage symbol table (what run_sympify parses and integrates with): sqrt, pow and log act on absolute values, as in the generation stage. Deductive (unbounded, from the AST of the real PanthLikelihood.get_pred / clear_data, model function opaque with H^2 > 0): for every redshift array "
                   "with 1+z >= 1 (any length, order, duplicates) the grid built on a cold cache is strictly increasing, starts at exactly 1 and contains every redshift; "
                   "mask_i is the grid index of redshift i (the list of np.where results has exactly one entry per redshift); the returned value is "
                   "5 log10(zp1_i * T_i) + mu_const with T_i the composite trapezoid sum (scipy's cumulative_trapezoid, initial=0) of 1/sqrt(H^2) over the grid from 1 to zp1_i, "
@@ -99,6 +99,10 @@ def check(run):
     if dfailed and not run.violations:
         from checks.C14 import report_unproved
         report_unproved(run, dfailed, False, "likelihood.PanthLikelihood.get_pred / clear_data")
+    # the symbol table run_sympify parses H^2 with (and integrates 1/sqrt(H^2) under): sqrt / pow / log act on absolute values, as in the generation stage
+    from vlib import deductive as D2
+    sfailed = D2.symtab_obligations(run)
+    D2.report_structural(run, sfailed, "symtab", "pyvc/symtab.py")
     return run.finish("other", META["structural"] + " " + META["text"], CHECKER,
                       rule="cases = (H^2 family, parameter vector, redshift sample) triples and (string, parameters, sample) triples; distinct_nontrivial = "
                            "numeric cases plus those analytic cases in which sympy produced an antiderivative")
